@@ -26,7 +26,16 @@ def main():
             sys.exit(mod.replay(a.replay))
         if a.shard:
             i, n = (int(x) for x in a.shard.split("/"))
-            signal.alarm(int(os.environ.get("VERIF_SHARD_ALARM", "3300")))
+            import threading
+
+            def _watchdog():
+                sys.stderr.write("shard watchdog expired\n")
+                sys.stderr.flush()
+                os._exit(2)
+
+            wd = threading.Timer(int(os.environ.get("VERIF_SHARD_ALARM", "3300")), _watchdog)
+            wd.daemon = True
+            wd.start()
             if a.sub:
                 res = mod.run_shard(a.tier, i, n, sub=a.sub)
             else:
